@@ -9,6 +9,8 @@ import (
 	"regexp"
 	"strconv"
 	"strings"
+
+	valpkg "verifharness/val"
 )
 
 type Dim struct {
@@ -330,6 +332,11 @@ func evalSteps(v any, steps []Step) (any, error) {
 					case bool:
 						out[p.Key] = strconv.FormatBool(x)
 					case float64:
+						if x != math.Trunc(x) && math.Abs(x) < 1e15 && !math.IsNaN(x) {
+							// a decimal text of the fraction; how many digits it shows is open (at least six decimals)
+							out[p.Key] = valpkg.NumText(x)
+							continue
+						}
 						if x != math.Trunc(x) || math.Abs(x) >= 1<<53 {
 							return nil, unspec("|string on the fraction %v", x)
 						}
@@ -339,6 +346,9 @@ func evalSteps(v any, steps []Step) (any, error) {
 						return nil, unspec("|string on %T", val)
 					}
 				case "number":
+					if _, isText := val.(valpkg.NumText); isText {
+						return nil, unspec("|number on the text of a fraction")
+					}
 					x, ok := val.(string)
 					if !ok {
 						if val == nil {
